@@ -132,6 +132,12 @@ func buildSep(s gen.SepSpec) (string, spg.SFFunction, sepModel) {
 
 // buildWL constructs the recipe; err from NewWordList is returned.
 func buildWL(w gen.WLSpec) (*spg.WLRecipe, sepModel, error) {
+	if len(w.Words) >= 2 {
+		// first set up a different list that is easily confused with this one
+		// (first two words merged): constructing a list must not depend on
+		// which lists were constructed before
+		spg.NewWordList(append([]string{w.Words[0] + w.Words[1]}, w.Words[2:]...))
+	}
 	wl, err := spg.NewWordList(append([]string{}, w.Words...))
 	if err != nil {
 		return nil, sepModel{}, err
@@ -142,7 +148,8 @@ func buildWL(w gen.WLSpec) (*spg.WLRecipe, sepModel, error) {
 	r.SeparatorChar, r.SeparatorFunc, m = buildSep(w.Sep)
 	if w.Sep.Kind == "nested" {
 		// the separator is a one-word password from a second recipe over the SAME list
-		inner := spg.NewWLRecipe(1, wl)
+		il := 1 + len(w.Sep.Preset)%3 // inner length 1..3, carried in Preset ("", "x", "xx")
+		inner := spg.NewWLRecipe(il, wl)
 		inner.Capitalize = spg.CapScheme(w.Sep.Const)
 		r.SeparatorFunc = func() (string, spg.FloatE) {
 			p, err := inner.Generate()
